@@ -1,7 +1,45 @@
 #!/opt/veriftools/pyvenv/bin/python
-import json, sys, glob, jsonschema
-jsonschema.validate(json.load(open('/verif/MANIFEST.json')), json.load(open('/root/.vp/MANIFEST.schema.json')))
+"""Validates MANIFEST.json and every committed evidence file; run before each commit.
+Beyond the schemas: an evidence file must belong to a claimed property, come from a full run that
+found nothing (violations == 0, nothing inconclusive, every unit discharged) and, for a proof-level
+claim, have discharged == obligations."""
+import json, sys, glob, os, jsonschema
+man = json.load(open('/verif/MANIFEST.json'))
+jsonschema.validate(man, json.load(open('/root/.vp/MANIFEST.schema.json')))
 print('manifest ok')
+claimed = {c['property_id']: c for c in man['checks']}
 sch = json.load(open('/root/.vp/EVIDENCE.schema.json'))
+bad = 0
+seen = set()
 for f in sorted(glob.glob('/verif/evidence/*.json')):
-    jsonschema.validate(json.load(open(f)), sch); print('ok', f)
+    ev = json.load(open(f))
+    jsonschema.validate(ev, sch)
+    pid = ev['property_id']
+    seen.add(pid)
+    cov = ev['coverage']
+    errs = []
+    if pid not in claimed:
+        errs.append('property is not claimed in MANIFEST.json')
+    elif claimed[pid]['level_claimed']['category'] != ev['level']:
+        errs.append('level differs from MANIFEST')
+    if os.path.basename(f) != pid + '.json':
+        errs.append('file name does not match property_id')
+    if ev['level'] == 'proof' and cov.get('discharged') != cov.get('obligations'):
+        errs.append('discharged %s != obligations %s' % (cov.get('discharged'), cov.get('obligations')))
+    if ev.get('violations'):
+        errs.append('violations=%d' % ev['violations'])
+    if cov.get('inconclusive'):
+        errs.append('inconclusive reasons present')
+    for u in cov.get('units', []):
+        if u.get('verdict') != 'discharged':
+            errs.append('unit %s verdict %s' % (u.get('unit'), u.get('verdict')))
+    if errs:
+        bad += 1
+        print('BAD', f, '; '.join(errs))
+    else:
+        print('ok', f, 'obligations=%s units=%d' % (cov.get('obligations'), len(cov.get('units', []))))
+for pid in claimed:
+    if pid not in seen:
+        bad += 1
+        print('BAD no evidence file for claimed property', pid)
+sys.exit(1 if bad else 0)
